@@ -65,6 +65,10 @@ func (m *mixedSide) Do(c prog.Concrete) prog.Result {
 	if c.Kind == prog.OpTransition {
 		return m.st.Do(c)
 	}
+	if c.Kind == prog.OpCopy && !c.ReplaceMeta && c.Range == nil && c.Class == nil && c.Bucket == c.SrcBucket && c.Key == c.SrcKey {
+		// the HTTP layer refuses a no-op self copy by design (S3 does too): not expressible over HTTP
+		return m.st.Do(c)
+	}
 	r := m.http.Do(c)
 	if r.Obj != nil && r.Obj.ContentType != nil && *r.Obj.ContentType == "application/octet-stream" {
 		r.Obj.ContentType = nil
